@@ -27,6 +27,8 @@ CfgsS == {Cfg(d, ck, zk, 3, rs, dur, sl) : d \in {<<>>, <<170>>}, ck \in BOOLEAN
                                             dur \in {0, 60000}, sl \in {-1, 25000}}
 KindsS == {"pos1", "pos2", "posdrop", "neg", "sil", "mis"}
 KeysS == {"badlen", "invalid", "accept", "sil"}
+\* v: action coverage (every action of the design is taken)
+CfgsV == {Cfg(<<1>>, TRUE, 0, 3, 2, 0, 25000), Cfg(<<>>, TRUE, 2, 3, 0, 60000, -1)}
 NoKeys == {}
 IntSome == {"Write", "Sleep", "Seed", "Key"}
 IntNone == {}
